@@ -73,6 +73,11 @@ var rcBase = time.Date(2030, 1, 1, 0, 0, 0, 0, time.UTC)
 // (switched on together with the timed Lean model RedisConc)
 const rcTimedEnabled = true
 
+// rcRedisSrvModel: the Lean model's server is the Redis server model (deadlines with the 1 ms clamp, exact expiry
+// instants, rKey): timed cases then also write expiries that are already over, advance the clock to any instant —
+// expiry instants included — and use keys that differ only in leading slashes
+const rcRedisSrvModel = true
+
 func rcAbs(t *time.Time) string {
 	if t == nil {
 		return ""
@@ -451,7 +456,7 @@ func runRedisCmdCase(ctx *Ctx, progs [][]*rcOp, maxSteps int, sched []int, timed
 			if state[t] == "gate" && (gateAt[t] == "set" || gateAt[t] == "setnx" || gateAt[t] == "exec") {
 				maxTick = 0
 			}
-			if o := cur[t]; o != nil {
+			if o := cur[t]; o != nil && !rcRedisSrvModel {
 				for _, e := range append([]int{o.exp}, o.exps...) {
 					if e != 0 && e-now-1 < maxTick {
 						maxTick = e - now - 1
@@ -462,7 +467,11 @@ func runRedisCmdCase(ctx *Ctx, progs [][]*rcOp, maxSteps int, sched []int, timed
 		tickOK := func(d int) bool { return d > 0 && d <= maxTick }
 		ch := choices[ctx.Rnd.Intn(len(choices))]
 		if timed && ctx.Rnd.Chance(1, 6) {
-			if d := []int{2, 4, 10, 20, 40}[ctx.Rnd.Intn(5)]; tickOK(d) {
+			d := []int{2, 4, 10, 20, 40}[ctx.Rnd.Intn(5)]
+			if rcRedisSrvModel {
+				d = []int{1, 1, 2, 3, 4, 5, 10, 20, 40}[ctx.Rnd.Intn(9)]
+			}
+			if tickOK(d) {
 				ch = 2*n + d
 			}
 		}
@@ -494,7 +503,10 @@ func runRedisCmdCase(ctx *Ctx, progs [][]*rcOp, maxSteps int, sched []int, timed
 			// keeps a record through its expiry instant, Redis drops it there: C03's concern, not this one's)
 			xs := ""
 			if o.ttl != 0 {
-				o.exp = now + o.ttl
+				o.exp = now + o.ttl // (a negative ttl: an expiry that is already over)
+				if o.exp < 1 {
+					o.exp = 1
+				}
 				xs = fmt.Sprintf(" x%d", o.exp)
 			}
 			cur[t] = o
@@ -514,6 +526,9 @@ func runRedisCmdCase(ctx *Ctx, progs [][]*rcOp, maxSteps int, sched []int, timed
 						o.exps = append(o.exps, 0)
 						if o.ttls[i] != 0 {
 							o.exps[i] = now + o.ttls[i]
+							if o.exps[i] < 1 {
+								o.exps[i] = 1
+							}
 							e = fmt.Sprintf("@%d", o.exps[i])
 						}
 					}
@@ -681,7 +696,22 @@ func runRedisCmd(ctx *Ctx) {
 		if rcTimedEnabled && len(sched) == 0 && r.Chance(2, 5) {
 			// timed case: writes ask for expiries, the scheduler advances the clock between commands
 			timed = true
-			ttl := func() int { return []int{0, 0, 3, 7, 15, 31, 101}[r.Intn(7)] }
+			ttl := func() int {
+				if rcRedisSrvModel {
+					return []int{0, 0, 0, 1, 2, 3, 4, 7, 15, 31, 101, -1, -3, -20}[r.Intn(14)]
+				}
+				return []int{0, 0, 3, 7, 15, 31, 101}[r.Intn(7)]
+			}
+			if rcRedisSrvModel && r.Chance(1, 4) {
+				// keys that differ only in leading slashes address ONE record
+				for _, pr := range progs {
+					for _, o := range pr {
+						if o.key == "a" && r.Chance(1, 2) {
+							o.key = []string{"/a", "//a"}[r.Intn(2)]
+						}
+					}
+				}
+			}
 			for _, pr := range progs {
 				for _, o := range pr {
 					switch o.kind {
